@@ -48,7 +48,10 @@ Others == [][\A i \in 1..Len(st.sc) : (act'.op \in {"elem", "dim", "erase"} \/ (
                                         => st'.sc[i].val = st.sc[i].val]_vars
 
 \* spec -> code: every transition once, with the sweep the model predicts after it (addresses relative to VarStart)
-Emit == PrintT(<<"TRANSITION", ToJson([from |-> ToString(st), d |-> nops, a |-> act', to |-> ToString(st'),
+\* canonical state key (ToString of a record is not canonical: the field order depends on how the record was built)
+Key(s) == ToString(<<[i \in 1..Len(s.sc) |-> <<s.sc[i].name, s.sc[i].t, s.sc[i].np, s.sc[i].vp, s.sc[i].val>>], s.scur,
+                     [i \in 1..Len(s.ar) |-> <<s.ar[i].name, s.ar[i].t, s.ar[i].dims, s.ar[i].np, s.ar[i].ap, s.ar[i].vals>>], s.acur>>)
+Emit == PrintT(<<"TRANSITION", ToJson([from |-> Key(st), d |-> nops, a |-> act', to |-> Key(st'),
             sc |-> [i \in 1..Len(st'.sc) |-> [name |-> st'.sc[i].name, t |-> st'.sc[i].t, vp |-> st'.sc[i].vp - VarStart]],
             ar |-> [i \in 1..Len(st'.ar) |-> [name |-> st'.ar[i].name, t |-> st'.ar[i].t, dims |-> st'.ar[i].dims,
                                               vp |-> ElemVarptr(st', i, 1) - VarStart]],
